@@ -48,6 +48,11 @@ pub mod api {
         fn exit(&mut self, code: i32);
         /// one step of work; returning `true` unwinds with [`StepBudgetExceeded`]
         fn tick(&mut self) -> bool;
+        /// `true` drops the output of the print macros unformatted (used while a harness only
+        /// wants the verdict of `check_invariants`, whose debug dump is large)
+        fn mute(&mut self) -> bool {
+            false
+        }
     }
 
     /// Panic payload standing in for a process exit
@@ -81,6 +86,9 @@ pub mod api {
 }
 
 pub(crate) fn emit(fd: i32, args: ::std::fmt::Arguments) {
+    if api::with(|w| w.mute()) == Some(true) {
+        return;
+    }
     let text = args.to_string();
     match api::with(|w| w.write(fd, text.as_bytes())) {
         Some(Ok(())) => {}
